@@ -13,5 +13,5 @@ def run(ck):
     codec.spec_rpfm_roundtrip(ck)
     codec.spec_socks_udp_roundtrip(ck)
     codec.spec_socks_request_roundtrip(ck, 5)
-    codec.spec_socks_request_roundtrip(ck, 4, hostmax=24 if ck.tier == 'quick' else 300)
+    codec.spec_socks_request_roundtrip(ck, 4, hostmax=24 if ck.tier == 'quick' else 96)
     ck.post_filter = lambda o: o.label.startswith('C03/') or o.status in ('undecided', 'vacuous', 'inconclusive')
